@@ -13,6 +13,7 @@ import os
 
 REPO = os.environ.get("PYVC_REPO", "/repo")
 SITE = os.environ.get("PYVC_SITE", "/venv/lib/python3.12/site-packages")
+SITE_VERIFIED = {"timeslot"}
 VERIF = os.path.dirname(os.path.dirname(os.path.abspath(__file__)))
 
 DROPPED = [
@@ -143,7 +144,10 @@ class World:
 
     def _find(self, modname):
         rel = modname.replace(".", "/")
-        roots = (VERIF,) if modname.split(".")[0] == "contracts" else (self.repo, self.site)
+        top = modname.split(".")[0]
+        # only the `timeslot` dependency is verified from its installed source; every other third-party module
+        # (iso8601, peewee, tomlkit, ...) is external: assumed contracts, never parsed
+        roots = (VERIF,) if top == "contracts" else ((self.repo, self.site) if top in SITE_VERIFIED else (self.repo,))
         for root in roots:
             for cand in (os.path.join(root, rel + ".py"), os.path.join(root, rel, "__init__.py")):
                 if os.path.isfile(cand):
